@@ -30,7 +30,15 @@ Inductive case :=
           (matched : list nat) (oob_ok all any : bool) (apply_ret : bool) (remaining : list nat)
           (unchanged : bool)
 | CFixed (q : bytes) (projs : list bytes) (ot : RunC07.oracle) (r : res_in) (rt : retable)
-         (matched : list nat) (all any : bool) (pvals : list (list (bytes * bytes))).
+         (matched : list nat) (all any : bool) (pvals : list (list (bytes * bytes)))
+(** a HISTORY on one Filter and one ProjectionParser: Parse / ParseWithUnit
+    calls that succeed or FAIL (observed [ok]), interleaved with Match and
+    Apply of results through the same Filter *)
+| CHist (q : bytes) (ot : RunC07.oracle) (rt : retable) (steps : list hstep)
+with hstep :=
+| HParse (p : bytes) (with_unit ok : bool)
+| HMatch (r : res_in) (matched : list nat) (all any : bool)
+| HApply (r : res_in) (remaining : list nat) (ret : bool).
 
 Definition dec_res (name cfgs units : sx) : option res_in :=
   do name <- as_b name;
@@ -38,8 +46,29 @@ Definition dec_res (name cfgs units : sx) : option res_in :=
   do units <- as_list (as_pair as_b as_b) units;
   Some (mkIn name cfgs units).
 
+Definition dec_hstep (s : sx) : option hstep :=
+  match s with
+  | SL [SZ 0; SB p; wu; ok] => do wu <- as_bool wu; do ok <- as_bool ok; Some (HParse p wu ok)
+  | SL [SZ 1; name; cfgs; units; matched; all; any] =>
+      do r <- dec_res name cfgs units;
+      do matched <- as_list as_nat matched;
+      do all <- as_bool all; do any <- as_bool any;
+      Some (HMatch r matched all any)
+  | SL [SZ 2; name; cfgs; units; remaining; ret] =>
+      do r <- dec_res name cfgs units;
+      do remaining <- as_list as_nat remaining;
+      do ret <- as_bool ret;
+      Some (HApply r remaining ret)
+  | _ => None
+  end.
+
 Definition decode (s : sx) : option case :=
   match s with
+  | SL [SZ 4; SB q; ot; rt; steps] =>
+      do ot <- as_list (as_pair as_b as_bool) ot;
+      do rt <- as_list (as_triple as_b as_b as_bool) rt;
+      do steps <- as_list dec_hstep steps;
+      Some (CHist q ot rt steps)
   | SL [SZ 1; SB q; ot; ast; name; cfgs; units; rt; matched; oob; all; any; aret; remaining; unch] =>
       do ot <- as_list (as_pair as_b as_bool) ot;
       do ast <- RunC07.dec_fobs ast;
@@ -92,8 +121,81 @@ Fixpoint needs_ok (rt : retable) (f : filter) (r : fresult) : bool :=
 Definition parse_projs (ot : RunC07.oracle) (projs : list bytes) : option (list (list pfield)) :=
   omap (fun p => match RunC07.np_ ot p with Ok l => Some l | _ => None end) projs.
 
+(** histories: [ps] = the projections whose Parse SUCCEEDED so far.  The
+    generator gives no fixed list to .fullname in histories (its extractor is
+    frozen at the first result seen, which a history interleaves with Parse
+    calls); [no_fixed_fullname] guards that restriction. *)
+Definition no_fixed_fullname (l : list pfield) : bool :=
+  forallb (fun p => negb (beq (pf_key p) key_fullname && beq (pf_order p) ord_fixed)) l.
+
+(** model: Parse conjoins the fixed fields iff the whole expression is accepted *)
+Fixpoint hist_corr (ot : RunC07.oracle) (rt : retable) (f : filter) (ps : list (list pfield))
+         (steps : list hstep) : bool :=
+  match steps with
+  | [] => true
+  | HParse p _ ok :: tl =>
+      match RunC07.np_ ot p with
+      | Ok l => ok && no_fixed_fullname l && hist_corr ot rt f (ps ++ [l]) tl
+      | _ => negb ok && hist_corr ot rt f ps tl
+      end
+  | HMatch ri matched all any :: tl =>
+      let r := to_res ri in
+      let n := length (fr_units r) in
+      let e := wrap (fullname_keys ps) ps r (eval (re_match rt) f r) in
+      needs_ok rt f r
+      && nat_list_eqb (idxs n (match_test n e)) matched
+      && Bool.eqb (match_all n e) all && Bool.eqb (match_any n e) any
+      && hist_corr ot rt f ps tl
+  | HApply ri remaining ret :: tl =>
+      let r := to_res ri in
+      let n := length (fr_units r) in
+      let e := wrap (fullname_keys ps) ps r (eval (re_match rt) f r) in
+      needs_ok rt f r
+      && (let '(kept, aret) := match_apply e (seq 0 n) in
+          nat_list_eqb kept remaining && Bool.eqb ret aret)
+      && hist_corr ot rt f ps tl
+  end.
+
+(** specification: at every Match / Apply the Filter denotes (every fixed
+    field of every projection whose Parse SUCCEEDED keeps the result) and (the
+    expression is true of measurement i).  A Parse that FAILED - at whatever
+    field, whatever came before it in the expression - contributes nothing:
+    the denotation is what it was before the call. *)
+Fixpoint hist_prop (ot : RunC07.oracle) (rt : retable) (f : filter) (ps : list (list pfield))
+         (steps : list hstep) : bool :=
+  match steps with
+  | [] => true
+  | HParse p _ ok :: tl =>
+      match ok, RunC07.np_ ot p with
+      | true, Ok l => hist_prop ot rt f (ps ++ [l]) tl
+      | _, _ => hist_prop ot rt f ps tl
+      end
+  | HMatch ri matched all any :: tl =>
+      let r := to_res ri in
+      let n := length (fr_units r) in
+      let want := if fixed_keeps (fullname_keys ps) ps r
+                  then idxs n (denote (re_match rt) f r) else [] in
+      nat_list_eqb matched want
+      && Bool.eqb all (Nat.eqb (length want) n)
+      && Bool.eqb any (negb (is_nil want))
+      && hist_prop ot rt f ps tl
+  | HApply ri remaining ret :: tl =>
+      let r := to_res ri in
+      let n := length (fr_units r) in
+      let want := if fixed_keeps (fullname_keys ps) ps r
+                  then idxs n (denote (re_match rt) f r) else [] in
+      nat_list_eqb remaining want
+      && (if (1 <=? n)%nat then Bool.eqb ret (negb (is_nil want)) else true)
+      && hist_prop ot rt f ps tl
+  end.
+
 Definition corr_ok (c : case) : bool :=
   match c with
+  | CHist q ot rt steps =>
+      match RunC07.nf_ ot q with
+      | Ok f => hist_corr ot rt f [] steps
+      | _ => false
+      end
   | CFilter q ot ast ri rt matched oob all any aret remaining unch =>
       match RunC07.nf_ ot q, ast with
       | Ok f, RunC07.OOk f' =>
@@ -129,6 +231,11 @@ Definition corr_ok (c : case) : bool :=
 (** specification on the observed answers *)
 Definition prop_ok (c : case) : bool :=
   match c with
+  | CHist q ot rt steps =>
+      match RunC07.nf_ ot q with
+      | Ok f => hist_prop ot rt f [] steps
+      | _ => false
+      end
   | CFilter q ot ast ri rt matched oob all any aret remaining unch =>
       (* the meaning of the expression TEXT: the tree the documented grammar
          gives it (Model/FilterParse.v), not the tree the implementation's
